@@ -120,6 +120,8 @@ def ops_C05(T, tvs, tier):
                     lambda T, tvs, ax=ax: refops.flatten(T, tvs, ax)))
     out.append(("flatten(axis=None)", lambda arr: tl(a.flatten(arr, axis=None)), lambda T, tvs: flatten_none(T, tvs)))
     out.append(("ravel", lambda arr: tl(a.ravel(arr)), lambda T, tvs: flatten_none(T, tvs)))
+    out.append(("flatten(axis=None) type", lambda arr: str(a.type(a.flatten(arr, axis=None))), lambda T, tvs: flat_type(T, tvs)))
+    out.append(("ravel type", lambda arr: str(a.type(a.ravel(arr))), lambda T, tvs: flat_type(T, tvs)))
     out.append(("unflatten(flatten(x), num(x))", lambda arr: tl(a.unflatten(a.flatten(arr, axis=1), a.num(arr, axis=1))),
                 lambda T, tvs: unflatten_law(T, tvs)))
     out.append(("unflatten(x, 1)", lambda arr: tl(a.unflatten(arr, 1)) if len(arr) else Skip_(),
@@ -170,6 +172,33 @@ def flatten_none(T, tvs):
     if refops._has_kind(T, ("str", "bytes")):
         raise Skip("axis=None takes strings apart into characters in 1.x; the statement does not say")
     return leaves(values.strip(tvs))
+
+
+def flat_type(T, tvs):
+    """type of the completely flattened array: its leaves keep their own primitive type"""
+    if refops._has_kind(T, ("union", "str", "bytes")):
+        raise Skip("strings / unions")
+    kinds = set()
+
+    def walk(t):
+        k = t[0]
+        if k in ("int", "float", "bool"):
+            kinds.add(k)
+        elif k in ("var", "opt"):
+            walk(t[1])
+        elif k == "reg":
+            walk(t[2])
+        elif k == "rec":
+            for _, x in t[1]:
+                walk(x)
+        elif k == "tup":
+            for x in t[1]:
+                walk(x)
+    walk(T)
+    if len(kinds) != 1:
+        raise Skip("leaves of several primitive types are promoted")
+    n = len(flatten_none(T, tvs))
+    return "%d * %s" % (n, {"int": "int64", "float": "float64", "bool": "bool"}[kinds.pop()])
 
 
 def unflatten_law(T, tvs):
@@ -342,8 +371,11 @@ def is_none_ref(T, tvs, axis):
 
 
 def fill_none_ref(T, tvs, axis):
-    if refops._has_kind(T, ("union", "unknown", "str", "bytes", "rec", "tup")):
+    """fill_none replaces exactly the None at the chosen level; the fields of a record sit at the record's own level"""
+    if refops._has_kind(T, ("union", "unknown", "str", "bytes", "tup")):
         raise Skip("fill value of another type makes a union")
+    if refops._has_kind(T, ("rec",)) and not _flat_record_fields(T):
+        raise Skip("records whose fields have lists: levels differ between the fields")
     lo, hi = refops.array_depth(T)
     if axis is None:
         def fill(v):
@@ -351,6 +383,8 @@ def fill_none_ref(T, tvs, axis):
                 return 99
             if isinstance(v, list):
                 return [fill(x) for x in v]
+            if isinstance(v, dict):
+                return {k: fill(x) for k, x in v.items()}
             return v
         return [fill(x) for x in values.strip(tvs)]
     if lo != hi and axis < 0:
@@ -360,6 +394,8 @@ def fill_none_ref(T, tvs, axis):
         raise RefError("axis out of range")
 
     def at(v, p):
+        if isinstance(v, dict):
+            return {k: at(x, p) for k, x in v.items()}
         if p == 0:
             return 99 if v is None else v
         if v is None:
@@ -368,6 +404,17 @@ def fill_none_ref(T, tvs, axis):
             raise Skip("axis below leaves")
         return [at(x, p - 1) for x in v]
     return [at(x, pos) for x in values.strip(tvs)]
+
+
+def _flat_record_fields(T):
+    k = T[0]
+    if k == "rec":
+        return all(t[0] in ("int", "float", "bool") or (t[0] == "opt" and t[1][0] in ("int", "float", "bool")) for _, t in T[1])
+    if k in ("var", "opt"):
+        return _flat_record_fields(T[1])
+    if k == "reg":
+        return _flat_record_fields(T[2])
+    return True
 
 
 def ops_C10(T, tvs, tier):
@@ -452,9 +499,8 @@ def ops_C08(T, tvs, tier):
 
 
 def concat_axis1(T, tvs):
-    if any(e is None for e in tvs):
-        raise Skip("missing lists at the concatenation axis")
-    return [values.strip(e) + values.strip(e) for e in tvs]
+    # a missing list at the concatenation axis contributes nothing (ak.concatenate fills it with [] on purpose)
+    return [(values.strip(e) or []) + (values.strip(e) or []) if e is not None else [] for e in tvs]
 
 
 def concat_axis_last(T, tvs):
@@ -471,11 +517,15 @@ def concat_axis_last(T, tvs):
 
 TABLES = {
     "C03": (ops_C03, [var(I), var(F), var(var(I)), var(opt(I)), opt(var(I)), reg(2, I), I, var(B), var(reg(2, I))]),
-    "C05": (ops_C05, [var(I), var(var(I)), var(opt(I)), opt(var(I)), reg(2, I), var(reg(2, I)), I, var(S), var(rec(("x", I)))]),
+    "C05": (ops_C05, [var(I), var(var(I)), var(opt(I)), opt(var(I)), reg(2, I), var(reg(2, I)), I, var(S), var(rec(("x", I))),
+                      rec(("x", I), ("y", var(values.UNK))), rec(("x", B), ("y", var(values.UNK))), var(B)]),
     "C06": (ops_C06, [var(I), var(F), var(opt(I)), var(S), I, F, opt(var(I)), reg(2, F)]),
-    "C07": (ops_C07, [var(I), var(var(I)), opt(var(I)), reg(2, I), var(rec(("x", I))), I, var(opt(I))]),
-    "C08": (ops_C08, [I, var(I), var(var(I)), opt(I), var(opt(I)), rec(("x", I), ("y", var(I))), S, reg(2, I)]),
-    "C09": (ops_C09, [var(I), opt(I), var(opt(I)), opt(var(I)), var(var(I)), reg(2, I), I, opt(var(opt(I)))]),
+    "C07": (ops_C07, [var(I), var(var(I)), opt(var(I)), reg(2, I), var(rec(("x", I))), I, var(opt(I)), var(reg(1, I)),
+                      reg(2, reg(1, I)), var(reg(2, I))]),
+    "C08": (ops_C08, [I, var(I), var(var(I)), opt(I), var(opt(I)), rec(("x", I), ("y", var(I))), S, reg(2, I), opt(var(I)),
+                      opt(var(F))]),
+    "C09": (ops_C09, [var(I), opt(I), var(opt(I)), opt(var(I)), var(var(I)), reg(2, I), I, opt(var(opt(I))),
+                      opt(rec(("x", I), ("y", opt(I)))), var(opt(rec(("x", opt(I)), ("y", I)))), rec(("x", opt(I)), ("y", I))]),
     "C10": (ops_C10, [rec(("x", I), ("y", var(I))), var(rec(("x", I), ("y", F))), opt(rec(("x", I))), var(opt(rec(("x", I), ("y", I)))),
                       rec(("x", rec(("a", I))), ("y", I)), reg(2, rec(("x", I)))]),
 }
